@@ -229,8 +229,16 @@ func (h *h14) history() string {
 		s string
 	}
 	var es []evt
+	npre := 0
 	for _, w := range h.writes {
+		if w.writer == 9 {
+			npre++
+			continue
+		}
 		es = append(es, evt{w.call, w.String()})
+	}
+	if npre > 0 {
+		ev = append(ev, fmt.Sprintf("prefill(P9.0..P9.%d)", npre-1))
 	}
 	for _, s := range h.states {
 		es = append(es, evt{s.call, s.String()})
@@ -293,7 +301,19 @@ func (h *h14) finish() {
 	}
 	key := func(w *wrec) string { return fmt.Sprintf("%c%d.%d", w.kind, w.writer, w.seq) }
 	var outc []string
-	for _, f := range frames {
+	for i := 0; i < len(frames); i++ {
+		f := frames[i]
+		if f.writer == 9 { // collapse an ascending run of prefill packets
+			j := i
+			for j+1 < len(frames) && frames[j+1].writer == 9 && frames[j+1].seq == frames[j].seq+1 {
+				j++
+			}
+			if j > i {
+				outc = append(outc, fmt.Sprintf("P9.%d..P9.%d", f.seq, frames[j].seq))
+				i = j
+				continue
+			}
+		}
 		outc = append(outc, fmt.Sprintf("%c%d.%d", f.kind, f.writer, f.seq))
 	}
 	if closed {
@@ -346,14 +366,21 @@ func (h *h14) finish() {
 	}
 
 	// --- order: a play packet whose write returned before another one's began precedes it ---
-	for _, a := range h.writes {
-		for _, b := range h.writes {
-			if a.kind != 'P' || b.kind != 'P' || a.err != nil || b.err != nil || a.ret >= b.call {
-				continue
-			}
-			fa, fb := byKey[key(a)], byKey[key(b)]
-			if len(fa) == 1 && len(fb) == 1 && fa[0].off > fb[0].off {
-				h.e.Fail("reordered", "%v was written before %v yet appears after it in the stream %v; history: %s", a, b, outc, hist)
+	type ow struct {
+		w   *wrec
+		off int
+	}
+	var ows []ow
+	for _, w := range h.writes {
+		if fs := byKey[key(w)]; w.kind == 'P' && w.err == nil && len(fs) == 1 {
+			ows = append(ows, ow{w, fs[0].off})
+		}
+	}
+	for _, a := range ows {
+		for _, b := range ows {
+			if a.w.ret < b.w.call && a.off > b.off {
+				h.e.Fail("reordered", "%v was written before %v yet appears after it in the stream %v; history: %s", a.w, b.w, outc, hist)
+				return
 			}
 		}
 	}
@@ -375,37 +402,37 @@ func (h *h14) prefill(n int) {
 func scenarios14() []dualrun.Scenario {
 	const U = -1
 	return []dualrun.Scenario{
-		{Name: "leave-config/1writer", Quick: U, Thorough: U, FreeQuick: 300, FreeThorough: 3000, Body: func(e *dualrun.Env) {
+		{Name: "leave-config/1writer", Quick: U, Thorough: U, FreeQuick: 200, FreeThorough: 3000, Body: func(e *dualrun.Env) {
 			h := new14(e, true)
 			e.Go("w1", func() { h.write('P', 1, 1, true); h.write('P', 1, 2, true); h.write('P', 1, 3, true) })
 			e.Go("st", func() { h.setState("SetState", false) })
 			e.AtEnd(h.finish)
 		}},
-		{Name: "leave-config-outbound/1writer", Quick: U, Thorough: U, FreeQuick: 300, FreeThorough: 3000, Body: func(e *dualrun.Env) {
+		{Name: "leave-config-outbound/1writer", Quick: U, Thorough: U, FreeQuick: 200, FreeThorough: 3000, Body: func(e *dualrun.Env) {
 			h := new14(e, true)
 			e.Go("w1", func() { h.write('P', 1, 1, true); h.write('K', 1, 2, true); h.write('P', 1, 3, true) })
 			e.Go("st", func() { h.setState("SetOutboundState", false) })
 			e.AtEnd(h.finish)
 		}},
-		{Name: "enter-config/1writer", Quick: U, Thorough: U, FreeQuick: 300, FreeThorough: 3000, Body: func(e *dualrun.Env) {
+		{Name: "enter-config/1writer", Quick: U, Thorough: U, FreeQuick: 200, FreeThorough: 3000, Body: func(e *dualrun.Env) {
 			h := new14(e, false)
 			e.Go("w1", func() { h.write('P', 1, 1, true); h.write('P', 1, 2, true) })
 			e.Go("st", func() { h.setState("SetState", true) })
 			e.AtEnd(h.finish)
 		}},
-		{Name: "enter-config-outbound/1writer", Quick: U, Thorough: U, FreeQuick: 300, FreeThorough: 3000, Body: func(e *dualrun.Env) {
+		{Name: "enter-config-outbound/1writer", Quick: U, Thorough: U, FreeQuick: 200, FreeThorough: 3000, Body: func(e *dualrun.Env) {
 			h := new14(e, false)
 			e.Go("w1", func() { h.write('P', 1, 1, true); h.write('K', 1, 2, true); h.write('P', 1, 3, true) })
 			e.Go("st", func() { h.setState("SetOutboundState", true) })
 			e.AtEnd(h.finish)
 		}},
-		{Name: "roundtrip/1writer", Quick: U, Thorough: U, FreeQuick: 300, FreeThorough: 3000, Body: func(e *dualrun.Env) {
+		{Name: "roundtrip/1writer", Quick: U, Thorough: U, FreeQuick: 200, FreeThorough: 3000, Body: func(e *dualrun.Env) {
 			h := new14(e, false)
 			e.Go("w1", func() { h.write('P', 1, 1, true); h.write('K', 1, 2, true); h.write('P', 1, 3, true); h.write('P', 1, 4, true) })
 			e.Go("st", func() { h.setState("SetState", true); h.setState("SetState", false) })
 			e.AtEnd(h.finish)
 		}},
-		{Name: "leave-config/2writers", Quick: 3, Thorough: U, FreeQuick: 300, FreeThorough: 3000, Body: func(e *dualrun.Env) {
+		{Name: "leave-config/2writers", Quick: 3, Thorough: U, FreeQuick: 200, FreeThorough: 3000, Body: func(e *dualrun.Env) {
 			h := new14(e, true)
 			h.prefill(1)
 			e.Go("w1", func() { h.write('P', 1, 1, true); h.write('P', 1, 2, true) })
@@ -413,21 +440,21 @@ func scenarios14() []dualrun.Scenario {
 			e.Go("st", func() { h.setState("SetState", false) })
 			e.AtEnd(h.finish)
 		}},
-		{Name: "roundtrip/2writers", Quick: 2, Thorough: 4, FreeQuick: 300, FreeThorough: 3000, Body: func(e *dualrun.Env) {
+		{Name: "roundtrip/2writers", Quick: 2, Thorough: 4, FreeQuick: 200, FreeThorough: 3000, Body: func(e *dualrun.Env) {
 			h := new14(e, false)
 			e.Go("w1", func() { h.write('P', 1, 1, true); h.write('P', 1, 2, true) })
 			e.Go("w2", func() { h.write('P', 2, 1, true); h.write('P', 2, 2, true) })
 			e.Go("st", func() { h.setState("SetState", true); h.setState("SetState", false) })
 			e.AtEnd(h.finish)
 		}},
-		{Name: "buffer-then-flush/2writers", Quick: 3, Thorough: U, FreeQuick: 300, FreeThorough: 3000, Body: func(e *dualrun.Env) {
+		{Name: "buffer-then-flush/2writers", Quick: 3, Thorough: U, FreeQuick: 200, FreeThorough: 3000, Body: func(e *dualrun.Env) {
 			h := new14(e, true)
 			e.Go("w1", func() { h.write('P', 1, 1, false); h.write('P', 1, 2, false); _ = h.mc.Flush() })
 			e.Go("w2", func() { h.write('P', 2, 1, false); h.write('K', 2, 2, false) })
 			e.Go("st", func() { h.setState("SetState", false) })
 			e.AtEnd(h.finish)
 		}},
-		{Name: "enable-queue-then-config/1writer", Quick: U, Thorough: U, FreeQuick: 300, FreeThorough: 3000, Body: func(e *dualrun.Env) {
+		{Name: "enable-queue-then-config/1writer", Quick: U, Thorough: U, FreeQuick: 200, FreeThorough: 3000, Body: func(e *dualrun.Env) {
 			h := new14(e, false)
 			e.Go("w1", func() { h.write('P', 1, 1, true); h.write('P', 1, 2, true) })
 			e.Go("st", func() { h.mc.EnablePlayPacketQueue(); h.setState("SetState", true); h.setState("SetState", false) })
@@ -459,7 +486,7 @@ func scenarios14() []dualrun.Scenario {
 			})
 			e.AtEnd(h.finish)
 		}},
-		{Name: "overflow/2writers-last-slot", Quick: U, Thorough: U, FreeQuick: 100, FreeThorough: 500, Body: func(e *dualrun.Env) {
+		{Name: "overflow/2writers-last-slot", Quick: U, Thorough: U, FreeQuick: 20, FreeThorough: 300, Body: func(e *dualrun.Env) {
 			h := new14(e, true)
 			h.overflow = true
 			h.prefill(holdLimit - 1)
@@ -476,7 +503,7 @@ func scenarios14() []dualrun.Scenario {
 				h.finish()
 			})
 		}},
-		{Name: "overflow/fits-exactly-vs-leave", Quick: U, Thorough: U, FreeQuick: 100, FreeThorough: 500, Body: func(e *dualrun.Env) {
+		{Name: "overflow/fits-exactly-vs-leave", Quick: U, Thorough: U, FreeQuick: 20, FreeThorough: 300, Body: func(e *dualrun.Env) {
 			h := new14(e, true)
 			h.prefill(holdLimit - 2)
 			e.Go("w1", func() { h.write('P', 1, 1, true); h.write('P', 1, 2, true) })
